@@ -8,5 +8,11 @@ import CalmVerif.Props.C20
 #check @CalmVerif.Props.C20.level_returns_to_zero
 #print axioms CalmVerif.Props.C20.level_returns_to_zero_any
 #check @CalmVerif.Props.C20.level_returns_to_zero_any
-#print axioms CalmVerif.Props.C20.empty_indent_string_falls_back
-#check @CalmVerif.Props.C20.empty_indent_string_falls_back
+#print axioms CalmVerif.Props.C20.empty_indent_string_is_used
+#check @CalmVerif.Props.C20.empty_indent_string_is_used
+#print axioms CalmVerif.Props.C20.defs_indent_balanced
+#check @CalmVerif.Props.C20.defs_indent_balanced
+#print axioms CalmVerif.Props.C20.program_ends_with_optional_newline
+#check @CalmVerif.Props.C20.program_ends_with_optional_newline
+#print axioms CalmVerif.Props.C20.ends_with_one_newline_partial
+#check @CalmVerif.Props.C20.ends_with_one_newline_partial
